@@ -25,6 +25,10 @@ func ZZ_C18_Session() {
 	K := zzverif.Bytes("key", k)
 	for i, b := range K {
 		zzverif.Assume(b < 0x80)
+		if zzverif.Param("alpha") == "ctl" {
+			// control keys, ESC and DEL only (longer scripts)
+			zzverif.Assume(b < 0x20 || b == 0x7f)
+		}
 		// keys that drive the macro machinery itself are not part of a key script
 		if style == "vi" {
 			zzverif.Assume(b != 'q' && b != '@')
@@ -73,6 +77,11 @@ func ZZ_C18_Session() {
 	// waiting for an argument key, no operator for its motion, no prefix for its next key
 	zzInCmd = 0
 	zzWaitProbe = func(rl *Shell, wait int) bool {
+		if i := wait - pre; i >= 0 && i+1 < k && K[i] == 0x1b {
+			// a lone ESC cancels an active local keymap (search, menu, pending operator);
+			// followed at once by another key it is a prefix: timing only tells them apart
+			zzverif.Assume(rl.Keymap.Local() == "")
+		}
 		if wait == pre+k {
 			_, noKeys := core.PeekKey(rl.Keys)
 			zzverif.Assume(zzInCmd == 0 && noKeys && !rl.Keymap.IsPending())
